@@ -1,15 +1,481 @@
 import Kio.Proofs.Codec
+import Kio.Proofs.PrefixPrim
 /-!
 Truncated input (C06): every strict prefix of an encoding decodes to `BufferUnderflow`.
 -/
 namespace Kio
+
+/-! ### arrays and nullable entities -/
+
+theorem decMany_pu (e : Value → Except Err Bytes) (d : Dec Value) (vs : List Value)
+    (hrt : ∀ v ∈ vs, ∀ bs, e v = .ok bs → ∀ rest, d (bs ++ rest) = .ok (v, rest))
+    (hpu : ∀ v ∈ vs, ∀ bs, e v = .ok bs → ∀ k, k < bs.length → d (bs.take k) = .error .underflow)
+    (out : Bytes) (he : encMany e vs = .ok out) (k : Nat) (hk : k < out.length) :
+    decMany d vs.length (out.take k) = .error .underflow := by
+  induction vs generalizing out k with
+  | nil =>
+    simp only [encMany] at he
+    have he := Except.ok.inj he
+    subst he
+    simp at hk
+  | cons v vs ih =>
+    obtain ⟨a, ha, he⟩ := bind_ok he
+    obtain ⟨b, hb, he⟩ := bind_ok he
+    simp only [pure, Except.pure] at he
+    have he := Except.ok.inj he
+    subst he
+    rw [List.length_cons, decMany]
+    refine pu_seq d _ a b v (hrt v (by simp) a ha) (hpu v (by simp) a ha) ?_ k hk
+    intro j hj
+    dsimp only
+    rw [ih (fun x hx => hrt x (by simp [hx])) (fun x hx => hpu x (by simp [hx])) b hb j hj]
+    rfl
+
+theorem array_pu (flex : Bool) (ew : Value → Except Err Bytes) (er : Dec Value) (vs : List Value)
+    (hrt : ∀ v ∈ vs, ∀ bs, ew v = .ok bs → ∀ rest, er (bs ++ rest) = .ok (v, rest))
+    (hpu : ∀ v ∈ vs, ∀ bs, ew v = .ok bs → ∀ k, k < bs.length → er (bs.take k) = .error .underflow)
+    (bs : Bytes) (he : arrayWriter flex ew (.tuple vs) = .ok bs) (k : Nat) (hk : k < bs.length) :
+    arrayReader flex er (bs.take k) = .error .underflow := by
+  cases flex
+  · simp only [arrayWriter, Bool.false_eq_true, if_false, legacyArrayWriter] at he
+    simp only [arrayReader, Bool.false_eq_true, if_false, legacyArrayReader, readLegacyArrayLength]
+    split at he
+    · obtain ⟨l, hl, he⟩ := bind_ok he
+      obtain ⟨body, hb, he⟩ := bind_ok he
+      simp only [pure, Except.pure] at he
+      have he := Except.ok.inj he
+      subst he
+      have hll := encIntN_length hl
+      refine pu_seq (decIntN 4 true) _ l body (vs.length : Int)
+        (fun rest => int_roundtrip 4 (by omega) true _ l rest hl)
+        (fun j hj => decIntN_short (by have := length_take_lt hj; omega)) ?_ k hk
+      intro j hj
+      have hne : ¬ ((vs.length : Int) = -1) := by omega
+      dsimp only
+      rw [if_neg hne, Int.toNat_natCast, decMany_pu ew er vs hrt hpu body hb j hj]
+      rfl
+    · cases he
+  · simp only [arrayWriter, if_true, compactArrayWriter, writeCompactArrayLength] at he
+    simp only [arrayReader, if_true, compactArrayReader, readCompactArrayLength]
+    obtain ⟨l, hl, he⟩ := bind_ok he
+    obtain ⟨n, hn, hl⟩ := bind_ok hl
+    obtain ⟨body, hb, he⟩ := bind_ok he
+    simp only [pure, Except.pure] at he hl
+    have he := Except.ok.inj he
+    have hl := Except.ok.inj hl
+    subst he hl
+    obtain ⟨hn1, hn2⟩ := uvarintCtor_ok hn
+    have hrd : ∀ rest, (do let (n, r) ← decVarint 5 rest; pure ((n : Int) - 1, r) : Except Err (Int × Bytes))
+        = (decVarint 5 rest >>= fun x => pure ((x.1 : Int) - 1, x.2)) := fun _ => rfl
+    have hlen : ∀ rest, (do let (n, r) ← decVarint 5 (encVarint n ++ rest); pure ((n : Int) - 1, r)
+        : Except Err (Int × Bytes)) = .ok ((vs.length : Int), rest) := by
+      intro rest
+      rw [varint_roundtrip 4 n (by rw [pow128_5]; exact hn2)]
+      have : (n : Int) - 1 = (vs.length : Int) := by omega
+      simp only [bind, Except.bind, pure, Except.pure, this]
+    refine pu_seq (fun bs => do let (n, r) ← decVarint 5 bs; pure ((n : Int) - 1, r)) _
+      (encVarint n) body (vs.length : Int) hlen ?_ ?_ k hk
+    · intro j hj
+      dsimp only
+      rw [varint_prefix_underflow 4 n (by rw [pow128_5]; exact hn2) j hj]; rfl
+    · intro j hj
+      have hne : ¬ ((vs.length : Int) = -1) := by omega
+      dsimp only
+      rw [if_neg hne, Int.toNat_natCast, decMany_pu ew er vs hrt hpu body hb j hj]
+      rfl
+
+theorem array_none_pu (flex : Bool) (ew : Value → Except Err Bytes) (er : Dec Value)
+    (bs : Bytes) (he : arrayWriter flex ew .none = .ok bs) (k : Nat) (hk : k < bs.length) :
+    arrayReader flex er (bs.take k) = .error .underflow := by
+  cases flex
+  · simp only [arrayWriter, Bool.false_eq_true, if_false, legacyArrayWriter] at he
+    simp only [arrayReader, Bool.false_eq_true, if_false, legacyArrayReader, readLegacyArrayLength]
+    have := encIntN_length he
+    rw [decIntN_short (by have := length_take_lt hk; omega)]; rfl
+  · simp only [arrayWriter, if_true, compactArrayWriter, writeCompactArrayLength] at he
+    simp only [arrayReader, if_true, compactArrayReader, readCompactArrayLength]
+    obtain ⟨n, hn, he⟩ := bind_ok he
+    simp only [pure, Except.pure] at he
+    have he := Except.ok.inj he
+    subst he
+    obtain ⟨hn1, hn2⟩ := uvarintCtor_ok hn
+    rw [varint_prefix_underflow 4 n (by rw [pow128_5]; exact hn2) k hk]; rfl
+
+theorem nullable_pu (ew : Value → Except Err Bytes) (er : Dec Value) (v : Value) (hv : v ≠ .none)
+    (hpu : ∀ bs, ew v = .ok bs → ∀ k, k < bs.length → er (bs.take k) = .error .underflow)
+    (bs : Bytes) (he : writeNullable ew v = .ok bs) (k : Nat) (hk : k < bs.length) :
+    readNullable er (bs.take k) = .error .underflow := by
+  have he' : (do let a ← encIntN 1 true 1; let b ← ew v; pure (a ++ b) : Except Err Bytes) = .ok bs := by
+    cases v <;> first | exact he | exact absurd rfl hv
+  obtain ⟨a, ha, he'⟩ := bind_ok he'
+  obtain ⟨b, hb, he'⟩ := bind_ok he'
+  simp only [pure, Except.pure] at he'
+  have he' := Except.ok.inj he'
+  subst he'
+  have hal := encIntN_length ha
+  unfold readNullable
+  refine pu_seq (decIntN 1 true) _ a b 1 (fun rest => int_roundtrip 1 (by omega) true _ a rest ha)
+    (fun j hj => decIntN_short (by have := length_take_lt hj; omega)) ?_ k hk
+  intro j hj
+  dsimp only
+  rw [if_neg (by omega), if_pos rfl]
+  exact hpu b hb j hj
+
+theorem nullable_none_pu (ew : Value → Except Err Bytes) (er : Dec Value)
+    (bs : Bytes) (he : writeNullable ew .none = .ok bs) (k : Nat) (hk : k < bs.length) :
+    readNullable er (bs.take k) = .error .underflow := by
+  simp only [writeNullable] at he
+  have := encIntN_length he
+  unfold readNullable
+  rw [decIntN_short (by have := length_take_lt hk; omega)]; rfl
+
+/-! ### the untagged part -/
+
+theorem Fields.readUntagged_pu (env : Env) (flex rh : Bool) (fs : List Field) (vs : List Value)
+    (hrt : ∀ p ∈ fs.zip vs, p.1.isTagged = false → ∀ bs, Field.write env flex rh false p.1 p.2 = .ok bs →
+      ∀ rest, Field.read env flex rh false p.1 (bs ++ rest) = .ok (p.2, rest))
+    (hpu : ∀ p ∈ fs.zip vs, p.1.isTagged = false → ∀ bs, Field.write env flex rh false p.1 p.2 = .ok bs →
+      ∀ k, k < bs.length → Field.read env flex rh false p.1 (bs.take k) = .error .underflow)
+    (a : Bytes) (hw : Fields.writeUntagged env flex rh fs vs = .ok a) (k : Nat) (hk : k < a.length) :
+    Fields.readUntagged env flex rh fs (a.take k) = .error .underflow := by
+  induction fs generalizing vs a k with
+  | nil =>
+    cases vs with
+    | nil =>
+      simp only [Fields.writeUntagged] at hw
+      have hw := Except.ok.inj hw
+      subst hw
+      simp at hk
+    | cons v vs => simp [Fields.writeUntagged] at hw
+  | cons f fs ih =>
+    cases vs with
+    | nil => simp [Fields.writeUntagged] at hw
+    | cons v vs =>
+      have ih' := ih vs (fun p hp => hrt p (by simp [hp])) (fun p hp => hpu p (by simp [hp]))
+      rw [Fields.writeUntagged] at hw
+      rw [Fields.readUntagged]
+      cases ht : f.isTagged
+      · simp only [ht, Bool.false_eq_true, if_false] at hw ⊢
+        obtain ⟨x, hx, hw⟩ := bind_ok hw
+        obtain ⟨y, hy, hw⟩ := bind_ok hw
+        simp only [pure, Except.pure] at hw
+        have hw := Except.ok.inj hw
+        subst hw
+        refine pu_seq (Field.read env flex rh false f) _ x y v
+          (hrt (f, v) (by simp) ht x hx) (hpu (f, v) (by simp) ht x hx) ?_ k hk
+        intro j hj
+        dsimp only
+        rw [ih' y hy j hj]
+        rfl
+      · simp only [ht, if_true] at hw ⊢
+        exact ih' a hw k hk
+
+/-! ### the tagged section -/
+
+/-- a cut strictly inside one item of the tagged section makes that turn of the loop underflow -/
+def ItemPU (skip : Bool) (plan : List TaggedR) (x : Nat × Bytes) : Prop :=
+  ∀ n acc k, k < x.2.length → readTaggedLoop skip plan (n+1) (x.2.take k) acc = .error .underflow
+
+theorem readTaggedLoop_pu (skip : Bool) (plan : List TaggedR) (val : Nat → Value)
+    (L : List (Nat × Bytes)) (hok : ∀ x ∈ L, ItemOk skip plan val x)
+    (hpu : ∀ x ∈ L, ItemPU skip plan x) (acc : List (Nat × Value))
+    (k : Nat) (hk : k < (flattenItems L).length) :
+    readTaggedLoop skip plan L.length ((flattenItems L).take k) acc = .error .underflow := by
+  induction L generalizing acc k with
+  | nil => simp [flattenItems] at hk
+  | cons x xs ih =>
+    have hflat : flattenItems (x :: xs) = x.2 ++ flattenItems xs := by simp [flattenItems]
+    rw [hflat] at hk ⊢
+    rw [List.length_cons]
+    by_cases hkx : k < x.2.length
+    · rw [List.take_append_of_le_length (Nat.le_of_lt hkx)]
+      exact hpu x (by simp) xs.length acc k hkx
+    · have hk' : k - x.2.length < (flattenItems xs).length := by
+        rw [List.length_append] at hk; omega
+      rw [take_append_ge _ _ k (by omega), hok x (by simp) xs.length _ acc]
+      exact ih (fun y hy => hok y (by simp [hy])) (fun y hy => hpu y (by simp [hy])) _ _ hk'
+
+theorem itemPU_of (skip : Bool) (plan : List TaggedR) (t : Nat) (item : Bytes)
+    (w : Value → Except Err Bytes) (v : Value) (hw : writeTaggedField t w v = .ok item)
+    (ht : t < 2 ^ 35) (e : TaggedR) (he : lookupTagged plan t = some e)
+    (hr : ∀ payload, w v = .ok payload → ∀ k, k < payload.length →
+      e.read (payload.take k) = .error .underflow) :
+    ItemPU skip plan (t, item) := by
+  unfold ItemPU
+  intro n acc k hk
+  unfold writeTaggedField at hw
+  obtain ⟨payload, hp, hw⟩ := bind_ok hw
+  obtain ⟨sz, hsz, hw⟩ := bind_ok hw
+  simp only [pure, Except.pure] at hw
+  have hw := Except.ok.inj hw
+  subst hw
+  have hszlt := (uvarintCtor_ok hsz).2
+  rw [readTaggedLoop]
+  dsimp only at hk ⊢
+  rw [List.append_assoc] at hk ⊢
+  refine pu_seq (decVarint 5) _ (encVarint t) (encVarint sz ++ payload) t
+    (varint_roundtrip 4 t (by rw [pow128_5]; exact ht))
+    (varint_prefix_underflow 4 t (by rw [pow128_5]; exact ht)) ?_ k hk
+  intro j hj
+  dsimp only
+  refine pu_seq (decVarint 5) _ (encVarint sz) payload sz
+    (varint_roundtrip 4 sz (by rw [pow128_5]; exact hszlt))
+    (varint_prefix_underflow 4 sz (by rw [pow128_5]; exact hszlt)) ?_ j hj
+  intro i hi
+  dsimp only
+  rw [he]
+  dsimp only
+  rw [hr payload hp i hi]
+  rfl
+
+theorem tagged_section_pu (env : Env) (skip flex rh : Bool) (fs : List Field) (vs : List Value)
+    (hn : (fs.filterMap Field.tagNat).Nodup)
+    (hwf : ∀ f ∈ fs, Field.wf env flex rh f = true)
+    (hrt : ∀ p ∈ fs.zip vs, p.1.isTagged = true → ∀ payload,
+      Field.write env flex rh true p.1 p.2 = .ok payload →
+      ∀ rest, Field.read env flex rh true p.1 (payload ++ rest) = .ok (p.2, rest))
+    (hpu : ∀ p ∈ fs.zip vs, p.1.isTagged = true → ∀ payload,
+      Field.write env flex rh true p.1 p.2 = .ok payload →
+      ∀ k, k < payload.length → Field.read env flex rh true p.1 (payload.take k) = .error .underflow)
+    (items : List (Nat × Bytes)) (hi : Fields.taggedItems env flex rh fs vs = .ok items)
+    (acc : List (Nat × Value)) (k : Nat) (hk : k < (flattenItems (sortByTag items)).length) :
+    readTaggedLoop skip (Fields.taggedPlan env flex rh fs) (sortByTag items).length
+        ((flattenItems (sortByTag items)).take k) acc = .error .underflow := by
+  have hitems : ∀ x ∈ sortByTag items,
+      ItemOk skip (Fields.taggedPlan env flex rh fs) (fieldVal fs vs) x
+      ∧ ItemPU skip (Fields.taggedPlan env flex rh fs) x := by
+    intro x hx
+    refine taggedItems_forall env flex rh
+      (fun x => ItemOk skip (Fields.taggedPlan env flex rh fs) (fieldVal fs vs) x
+        ∧ ItemPU skip (Fields.taggedPlan env flex rh fs) x)
+      fs vs items hi ?_ x (mem_sortByTag.mp hx)
+    intro p hp t ht _ item hitem
+    obtain ⟨hfind, hval⟩ := find_field fs vs hn p hp t ht
+    have hlt := Field.tagNat_lt (hwf p.1 (List.of_mem_zip hp).1) ht
+    have hlook : lookupTagged (Fields.taggedPlan env flex rh fs) t
+        = some { tag := t, read := Field.read env flex rh true p.1, dflt := Field.dflt env p.1 } := by
+      rw [lookupTagged_plan, hfind]; rfl
+    have htg : p.1.isTagged = true := by rw [Field.isTagged_eq, ht]; rfl
+    constructor
+    · refine itemOk_of skip _ _ t item _ p.2 hitem hlt _ hlook ?_
+      intro payload hpay rest'
+      rw [hval]
+      exact hrt p hp htg payload hpay rest'
+    · refine itemPU_of skip _ t item _ p.2 hitem hlt _ hlook ?_
+      intro payload hpay j hj
+      exact hpu p hp htg payload hpay j hj
+  exact readTaggedLoop_pu skip _ (fieldVal fs vs) (sortByTag items)
+    (fun x hx => (hitems x hx).1) (fun x hx => (hitems x hx).2) acc k hk
+
+/-! ### shapes, fields, schemas -/
+
+def SchemaPU (env : Env) (s : Schema) : Prop :=
+  ∀ v bs, s.wf env = true → s.valueOk env v = true → s.write env v = .ok bs →
+    ∀ k, k < bs.length → s.read env (bs.take k) = .error .underflow
+
+def ShapePU (env : Env) (sh : Shape) : Prop :=
+  ∀ flex tagged m v bs, tagged = m.tag.isSome → Shape.wf env flex m sh = true →
+    Shape.valueOk env m sh v = true → Shape.write env flex tagged m sh v = .ok bs →
+    ∀ k, k < bs.length → Shape.read env flex tagged m sh (bs.take k) = .error .underflow
+
+def FieldPU (env : Env) (f : Field) : Prop :=
+  ∀ flex rh tagged v bs, tagged = f.isTagged → Field.wf env flex rh f = true →
+    Field.valueOk env rh f v = true → Field.write env flex rh tagged f v = .ok bs →
+    ∀ k, k < bs.length → Field.read env flex rh tagged f (bs.take k) = .error .underflow
+
+theorem shapeRT_all (env : Env) (ht : env.time = TimeCfg.repaired) (hfl : FloatExact) :
+    ∀ sh, ShapeRT env sh
+  | .prim l o => shape_prim_rt env ht hfl l o
+  | .primArr l e a => shape_primArr_rt env ht hfl l e a
+  | .ent s o => shape_ent_rt env s o (Schema.roundtrip' env ht hfl s)
+  | .entArr s a => shape_entArr_rt env s a (Schema.roundtrip' env ht hfl s)
+  | .bad => by intro flex tagged m v bs _ hwf; simp [Shape.wf] at hwf
+
+theorem fieldRT_all (env : Env) (ht : env.time = TimeCfg.repaired) (hfl : FloatExact) :
+    ∀ f, FieldRT env f
+  | .mk m sh => field_rt env m sh (shapeRT_all env ht hfl sh)
+
+theorem shape_prim_pu (env : Env) (l : PyLeaf) (o : Bool) : ShapePU env (.prim l o) := by
+  intro flex tagged m v bs htag hwf hvo he j hj
+  simp only [Shape.wf] at hwf
+  simp only [Shape.valueOk] at hvo
+  split at hwf
+  · rename_i k hk
+    rw [hk] at hvo
+    simp only at hvo
+    simp only [Bool.and_eq_true] at hwf
+    obtain ⟨⟨⟨⟨hl, _⟩, _⟩, hr⟩, hw⟩ := hwf
+    have hsft := schemaFieldType_ok m k l hk hl
+    obtain ⟨r, hr⟩ := ok_of_isSome hr
+    obtain ⟨w, hw⟩ := ok_of_isSome hw
+    rw [← htag] at hr hw
+    simp only [Shape.write, primFieldWriter, hsft, hw] at he
+    simp only [Shape.read, primFieldReader, hsft, hr]
+    exact prim_pu env k flex _ _ w r hw hr v (primValueOk_mono env k o v hvo) bs he j hj
+  · cases hwf
+
+theorem shape_primArr_pu (env : Env) (ht : env.time = TimeCfg.repaired) (hfl : FloatExact)
+    (l : PyLeaf) (e a : Bool) : ShapePU env (.primArr l e a) := by
+  intro flex tagged m v bs htag hwf hvo he j hj
+  simp only [Shape.wf] at hwf
+  simp only [Shape.valueOk] at hvo
+  split at hwf
+  · rename_i k hk
+    rw [hk] at hvo
+    simp only at hvo
+    simp only [Bool.and_eq_true] at hwf
+    obtain ⟨⟨⟨⟨⟨⟨hl, _⟩, _⟩, _⟩, _⟩, hr⟩, hw⟩ := hwf
+    have hsft := schemaFieldType_ok m k l hk hl
+    obtain ⟨r, hr⟩ := ok_of_isSome hr
+    obtain ⟨w, hw⟩ := ok_of_isSome hw
+    rw [← htag] at hw
+    simp only [Shape.write, primFieldWriter, hsft, hw] at he
+    simp only [Shape.read, primFieldReader, hsft, hr]
+    have hopt : ((!tagged && (e || a)) = true → (e || a) = true) ∨ k = .uuid := by
+      left; intro h; simp only [Bool.and_eq_true] at h; exact h.2
+    cases v with
+    | tuple vs =>
+      simp only at hvo
+      refine array_pu flex _ _ vs ?_ ?_ bs he j hj
+      · intro x hx xs hxs rest'
+        exact prim_roundtrip' env ht hfl k flex _ _ hopt w r hw hr x
+          (primValueOk_mono env k e x (allOk_mem' hvo hx)) xs hxs rest'
+      · intro x hx xs hxs i hi
+        exact prim_pu env k flex _ _ w r hw hr x
+          (primValueOk_mono env k e x (allOk_mem' hvo hx)) xs hxs i hi
+    | none => exact array_none_pu flex _ _ bs he j hj
+    | _ => simp at hvo
+  · cases hwf
+
+theorem shape_ent_pu (env : Env) (s : Schema) (o : Bool) (ih : SchemaPU env s) :
+    ShapePU env (.ent s o) := by
+  intro flex tagged m v bs htag hwf hvo he j hj
+  simp only [Shape.wf, Bool.and_eq_true] at hwf
+  obtain ⟨⟨_, hto⟩, hs⟩ := hwf
+  rw [← htag] at hto
+  have hflag : (!tagged && o) = o := by cases tagged <;> cases o <;> simp_all
+  simp only [Shape.write, hflag] at he
+  simp only [Shape.read]
+  by_cases hv : v = .none
+  · subst hv
+    rw [Shape.valueOk.eq_3] at hvo
+    subst hvo
+    simp only [if_true] at he ⊢
+    exact nullable_none_pu _ _ bs he j hj
+  · have hvo' : Schema.valueOk env s v = true := by
+      rw [Shape.valueOk.eq_4 _ _ _ _ _ hv] at hvo
+      exact hvo
+    cases o
+    · simp only [Bool.false_eq_true, if_false] at he ⊢
+      exact ih v bs hs hvo' he j hj
+    · simp only [if_true] at he ⊢
+      exact nullable_pu _ _ v hv (fun bs' he' i hi => ih v bs' hs hvo' he' i hi) bs he j hj
+
+theorem shape_entArr_pu (env : Env) (s : Schema) (a : Bool) (hrt : SchemaRT env s)
+    (ih : SchemaPU env s) : ShapePU env (.entArr s a) := by
+  intro flex tagged m v bs htag hwf hvo he j hj
+  simp only [Shape.wf, Bool.and_eq_true] at hwf
+  obtain ⟨⟨_, hs⟩, _⟩ := hwf
+  simp only [Shape.write] at he
+  simp only [Shape.read]
+  rw [Shape.valueOk.eq_def] at hvo
+  cases v with
+  | tuple vs =>
+    simp only at hvo
+    refine array_pu flex _ _ vs ?_ ?_ bs he j hj
+    · intro x hx xs hxs rest'
+      exact hrt x xs hs (Values.allOk_mem hvo hx) hxs rest'
+    · intro x hx xs hxs i hi
+      exact ih x xs hs (Values.allOk_mem hvo hx) hxs i hi
+  | none => exact array_none_pu flex _ _ bs he j hj
+  | _ => simp at hvo
+
+theorem field_pu (env : Env) (m : FieldMeta) (sh : Shape) (ih : ShapePU env sh) :
+    FieldPU env (.mk m sh) := by
+  intro flex rh tagged v bs htag hwf hvo he j hj
+  obtain ⟨_, hsh, _⟩ := Field.wf_elim hwf
+  rw [Field.valueOk.eq_1, Bool.and_eq_true] at hvo
+  have hv1 := hvo.1
+  rw [Field.write] at he
+  rw [Field.read]
+  cases hc : (rh && m.isClientId) <;> rw [hc] at hsh hv1 he <;>
+    simp only [Bool.false_eq_true, if_false, if_true] at hsh hv1 he ⊢
+  · exact ih flex tagged m v bs htag hsh hv1 he j hj
+  · exact PrimR.pu env .nullableLegacyString bs (writeNullableLegacyString_framed he) j hj
+
+theorem schema_pu (env : Env) (ht : env.time = TimeCfg.repaired) (hfl : FloatExact)
+    (n : Nat) (flex rh : Bool) (fs : List Field)
+    (ih : ∀ f ∈ fs, FieldPU env f) : SchemaPU env (.mk n flex rh fs) := by
+  intro v bs hwf hvo he k hk
+  obtain ⟨vs, rfl⟩ := Schema.valueOk_entity hvo
+  rw [Schema.valueOk.eq_1] at hvo
+  obtain ⟨hlen, hvz⟩ := Fields.valueOk_zip hvo
+  simp only [Schema.wf, Bool.and_eq_true] at hwf
+  obtain ⟨⟨hfs, hany⟩, hdup⟩ := hwf
+  have hn : (fs.filterMap Field.tagNat).Nodup := by
+    simpa [dupTags] using hdup
+  have hfrt : ∀ (tagged : Bool), ∀ p ∈ fs.zip vs, p.1.isTagged = tagged → ∀ payload,
+      Field.write env flex rh tagged p.1 p.2 = .ok payload →
+      ∀ rest, Field.read env flex rh tagged p.1 (payload ++ rest) = .ok (p.2, rest) := by
+    intro tagged p hp htg payload hpay rest'
+    have hmem := (List.of_mem_zip hp).1
+    exact fieldRT_all env ht hfl p.1 flex rh tagged p.2 payload htg.symm (Fields.wf_mem hfs hmem)
+      (hvz p hp) hpay rest'
+  have hfpu : ∀ (tagged : Bool), ∀ p ∈ fs.zip vs, p.1.isTagged = tagged → ∀ payload,
+      Field.write env flex rh tagged p.1 p.2 = .ok payload →
+      ∀ j, j < payload.length → Field.read env flex rh tagged p.1 (payload.take j) = .error .underflow := by
+    intro tagged p hp htg payload hpay j hj
+    have hmem := (List.of_mem_zip hp).1
+    exact ih p.1 hmem flex rh tagged p.2 payload htg.symm (Fields.wf_mem hfs hmem) (hvz p hp) hpay j hj
+  rw [Schema.write] at he
+  obtain ⟨a, ha, he⟩ := bind_ok he
+  have hun := fun rest' => Fields.readUntagged_rt env flex rh fs vs (hfrt false) a ha rest'
+  have hupu := Fields.readUntagged_pu env flex rh fs vs (hfrt false) (hfpu false) a ha
+  rw [Schema.read]
+  show (Fields.readUntagged env flex rh fs (bs.take k) >>= _) = _
+  cases flex
+  · simp only [Bool.not_false, if_true, pure, Except.pure] at he
+    have he := Except.ok.inj he
+    subst he
+    rw [hupu k hk]
+    rfl
+  · simp only [Bool.not_true, Bool.false_eq_true, if_false] at he
+    obtain ⟨items, hi, he⟩ := bind_ok he
+    obtain ⟨cnt, hcnt, he⟩ := bind_ok he
+    simp only [pure, Except.pure] at he
+    have he := Except.ok.inj he
+    subst he
+    obtain ⟨hc1, hc2⟩ := uvarintCtor_ok hcnt
+    have hc3 : cnt = (sortByTag items).length := by omega
+    rw [List.append_assoc] at hk ⊢
+    refine pu_seq (Fields.readUntagged env true rh fs) _ a
+      (encVarint cnt ++ flattenItems (sortByTag items)) (untaggedVals fs vs) hun hupu ?_ k hk
+    intro j hj
+    dsimp only
+    simp only [Bool.not_true, Bool.false_eq_true, if_false]
+    refine pu_seq (decVarint 5) _ (encVarint cnt) (flattenItems (sortByTag items)) cnt
+      (varint_roundtrip 4 cnt (by rw [pow128_5]; exact hc2))
+      (varint_prefix_underflow 4 cnt (by rw [pow128_5]; exact hc2)) ?_ j hj
+    intro i hi'
+    dsimp only
+    rw [hc3, tagged_section_pu env env.skipUnknownTags true rh fs vs hn
+      (fun f hf => Fields.wf_mem hfs hf) (hfrt true) (hfpu true) items hi [] i hi']
+    rfl
+
+theorem Schema.prefix_underflow_all (env : Env) (ht : env.time = TimeCfg.repaired) (hfl : FloatExact) :
+    ∀ s, SchemaPU env s :=
+  Schema.induct3 (PS := SchemaPU env) (PF := FieldPU env) (PSh := ShapePU env)
+    (schema_pu env ht hfl) (field_pu env) (shape_prim_pu env) (shape_primArr_pu env ht hfl)
+    (shape_ent_pu env)
+    (fun s a ih => shape_entArr_pu env s a (Schema.roundtrip' env ht hfl s) ih)
+    (by intro flex tagged m v bs _ hwf; simp [Shape.wf] at hwf)
 
 /-- the plan-level statement: any strict prefix of what `Schema.write` produced makes
     `Schema.read` fail with `underflow` (never a value, never another error) -/
 theorem Schema.prefix_underflow (env : Env) (ht : env.time = TimeCfg.repaired) (hfl : FloatExact)
     (s : Schema) (v : Value) (bs : Bytes) (hwf : s.wf env = true) (hv : s.valueOk env v = true)
     (he : s.write env v = .ok bs) (k : Nat) (hk : k < bs.length) :
-    s.read env (bs.take k) = .error .underflow := by
-  sorry
+    s.read env (bs.take k) = .error .underflow :=
+  Schema.prefix_underflow_all env ht hfl s v bs hwf hv he k hk
 
 end Kio
